@@ -14,11 +14,14 @@ from .. import common
 from .. import harness as H
 from .. import recorder as REC
 
-BIN = ["add", "sub", "mul", "truediv", "floordiv", "mod", "divmod", "lt", "le", "eq", "ne", "gt", "ge"]
+BIN = ["add", "sub", "mul", "truediv", "floordiv", "mod", "divmod", "lt", "le", "eq", "ne", "gt", "ge", "ite1", "ite0"]
 ASSERTS = ["assert_lt", "assert_le", "assert_eq", "assert_ne", "assert_gt", "assert_ge"]
 IMPL = {"add": operator.add, "sub": operator.sub, "mul": operator.mul, "truediv": operator.truediv,
         "floordiv": operator.floordiv, "mod": operator.mod, "divmod": divmod, "lt": operator.lt, "le": operator.le,
-        "eq": operator.eq, "ne": operator.ne, "gt": operator.gt, "ge": operator.ge}
+        "eq": operator.eq, "ne": operator.ne, "gt": operator.gt, "ge": operator.ge,
+        # oblivious selection between the two operands (condition 1 / 0): a fixed-point number either way
+        "ite1": lambda x, y: H.branching.if_then_else(H.boolean.PrivValBool(1), x, y),
+        "ite0": lambda x, y: H.branching.if_then_else(H.boolean.PrivValBool(0), x, y)}
 KINDS = ["F", "S", "B", "i", "f"]     # fixed-point secret, integer secret, boolean secret, int, float
 
 
@@ -98,6 +101,8 @@ def reference(op, ka, a, kb, b, r):
         q, m = divmod(Fraction(ra, one), Fraction(rb, one))
         qq, mm = int(q) * one, int(m * one)
         return {"floordiv": ("fxp", qq), "mod": ("fxp", mm), "divmod": ("pair", (qq, mm))}[op]
+    if op in ("ite1", "ite0"):
+        return ("fxp", ra if op == "ite1" else rb)
     cmpf = {"lt": operator.lt, "le": operator.le, "eq": operator.eq, "ne": operator.ne, "gt": operator.gt, "ge": operator.ge}
     if op in cmpf:
         return ("bool", int(cmpf[op](ra, rb)))
@@ -307,7 +312,7 @@ def run(ctx):
     ctx.cov["distinct_outcomes"] = nout
     ctx.cov["traces_validated_against_impl"] = agg["compared"]
     ctx.cov["exhaustive"] = True
-    ctx.cov["rule"] = ("13 binary operators + 6 assertions x ordered operand-kind pairs over {fixed-point secret, integer "
+    ctx.cov["rule"] = ("13 binary operators + oblivious selection (condition 1 / 0) + 6 assertions x ordered operand-kind pairs over {fixed-point secret, integer "
                        "secret, boolean secret, int, float} with at least one fixed-point operand x ALL multiples of 2^-r in "
                        "[-2-2^-r, 2+2^-r] (integers -3..3) x resolutions x bitlengths, and operands around and above 2^53 at resolution 8 / 2 with bitlength 90; result representation compared with "
                        "exact Fraction arithmetic (floor(a*b/2^r), floor(a*2^r/b), Python // and % on the represented "
